@@ -71,6 +71,8 @@ class Analysis:
             for u in n.get('up', []):
                 if n['id'] not in self.children[u]:
                     self.children[u].append(n['id'])
+        for fb in sc.get('feedback', []):
+            self.children[fb['from']].append(fb['to'])
         self.quiescent = res.status == 'ok' and any(e[2] == 'quiescent' for e in self.ev)
         self.injected = bool((sc.get('faults') or {}).get('fail'))
         self.stalled = bool((sc.get('faults') or {}).get('stalls'))
@@ -1040,6 +1042,8 @@ def reference_sinks(sc):
         for u in n.get('up', []):
             if n['id'] not in children[u]:
                 children[u].append(n['id'])
+    for fb in sc.get('feedback', []):
+        children[fb['from']].append(fb['to'])
     ms = {n['id']: make_model(n) for n in sc['graph']}
     got = defaultdict(list)
     slice_cnt = defaultdict(int)
